@@ -611,4 +611,122 @@ Proof.
   apply inb_length in Hi. unfold shape in Hi. rewrite map_length in Hi. lia.
 Qed.
 End Spec.
+
+(* ---------------------------------------------------------------- cores equal as functions inside their bounds *)
+Definition ceq (G G' : core T) : Prop :=
+  cr1 G = cr1 G' /\ cn G = cn G' /\ cr2 G = cr2 G' /\
+  forall a i b, a < cr1 G -> i < cn G -> b < cr2 G -> cget K G a i b = cget K G' a i b.
+Lemma run_ceq Y Y' : Forall2 ceq Y Y' -> forall v idx, inb (shape Y) idx -> run K v Y idx = run K v Y' idx.
+Proof.
+  induction 1 as [|G G' Y Y' (E1 & E2 & E3 & E) HF IH]; intros v idx Hi; [reflexivity|].
+  destruct idx as [|i idx]; [inversion Hi|]. cbn [shape map] in Hi. apply inb_cons in Hi as [Hi Hi'].
+  cbn [run]. replace (vstep K v G' i) with (vstep K v G i); [apply IH; auto|].
+  unfold vstep. rewrite <- E1, <- E3. apply tab_ext; intros b Hb. apply bsum_ext; intros a Ha. now rewrite E.
+Qed.
+Lemma get_ceq Y Y' idx : Forall2 ceq Y Y' -> inb (shape Y) idx -> get K Y idx = get K Y' idx.
+Proof. intros H Hi. unfold get. now rewrite (run_ceq Y Y' H). Qed.
+Lemma ceq_shape Y Y' : Forall2 ceq Y Y' -> shape Y = shape Y'.
+Proof. induction 1 as [|G G' Y Y' (E1 & E2 & E3 & E) HF IH]; cbn [shape map]; auto. f_equal; auto. Qed.
+
+(* ---------------------------------------------------------------- func_int_general, given the lstsq contract *)
+Section General.
+Variable lstsq : nat -> mat T -> mat T -> mat T.
+(* contract of scipy.linalg.lstsq (a minimiser of |H Q - M|): when the system is consistent the residual is zero *)
+Hypothesis lstsq_spec : forall k H M, mr M = mr H ->
+  (exists Q0, mr Q0 = mc H /\ mc Q0 = mc M /\ meq K (mmul K H Q0) M) ->
+  mr (lstsq k H M) = mc H /\ mc (lstsq k H M) = mc M /\ meq K (mmul K H (lstsq k H M)) M.
+
+(* the mode fibres of G lie in the column space of H, with coefficient core C *)
+Definition in_span (H : mat T) (G C : core T) : Prop :=
+  mr H = cn G /\ cr1 C = cr1 G /\ cn C = mc H /\ cr2 C = cr2 G /\
+  forall a i b, a < cr1 G -> i < cn G -> b < cr2 G ->
+    cget K G a i b = bsum K (mc H) (fun j => mget K H i j * cget K C a j b).
+(* full column rank, as left-cancellation *)
+Definition full_col_rank (H : mat T) : Prop :=
+  forall Q Q', mr Q = mc H -> mr Q' = mc H -> mc Q = mc Q' -> meq K (mmul K H Q) (mmul K H Q') -> meq K Q Q'.
+
+Lemma divmod_idx a b r2 : b < r2 -> ((a * r2 + b) / r2 = a /\ (a * r2 + b) mod r2 = b)%nat.
+Proof.
+  intros Hb. split.
+  - rewrite Nat.div_add_l by lia. rewrite Nat.div_small by lia. lia.
+  - rewrite Nat.add_comm, Nat.mod_add by lia. apply Nat.mod_small; lia.
+Qed.
+Lemma general_core_fit k H G C : in_span H G C ->
+  let A := general_core K lstsq k H G in
+  let M := mkmat (cn G) (cr1 G * cr2 G) (fun i c => cget K G (c / cr2 G) i (c mod cr2 G)) in
+  cr1 A = cr1 G /\ cn A = mc H /\ cr2 A = cr2 G /\ mc (lstsq k H M) = (cr1 G * cr2 G)%nat /\
+  meq K (mmul K H (lstsq k H M)) M.
+Proof.
+  intros (E0 & E1 & E2 & E3 & E) A M.
+  assert (S : mr (lstsq k H M) = mc H /\ mc (lstsq k H M) = mc M /\ meq K (mmul K H (lstsq k H M)) M).
+  { apply lstsq_spec; [unfold M; rewrite mr_mk; auto|].
+    exists (mkmat (mc H) (cr1 G * cr2 G) (fun j c => cget K C (c / cr2 G) j (c mod cr2 G))).
+    split; [apply mr_mk|]. split; [unfold M; now rewrite !mc_mk|].
+    split; [unfold mmul, M; rewrite !mr_mk; auto|]. split; [unfold mmul, M; rewrite !mc_mk; auto|].
+    intros i c Hi Hc. unfold mmul in Hi, Hc. rewrite mr_mk in Hi. rewrite mc_mk in Hc.
+    unfold M. rewrite mc_mk in Hc. rewrite mget_mmul by (rewrite ?mc_mk; auto). rewrite mget_mk by (auto; lia).
+    assert (Hr2 : 0 < cr2 G) by (destruct (cr2 G); lia).
+    assert (c / cr2 G < cr1 G) by (apply Nat.div_lt_upper_bound; lia).
+    assert (c mod cr2 G < cr2 G) by (apply Nat.mod_upper_bound; lia).
+    rewrite E by (auto; lia). apply bsum_ext; intros j Hj. rewrite mget_mk by auto. reflexivity. }
+  destruct S as (S1 & S2 & S3). unfold A, general_core. fold M. rewrite cr1_mk, cn_mk, cr2_mk.
+  split; [reflexivity|]. split; [exact S1|]. split; [reflexivity|]. split; [|exact S3].
+  unfold M in S2. rewrite mc_mk in S2. exact S2.
+Qed.
+(* the fitted coefficients reproduce the data at the sample points *)
+Theorem general_core_reproduces k H G C : in_span H G C ->
+  ceq (cmode (mr H) (mget K H) (general_core K lstsq k H G)) G.
+Proof.
+  intros HS. destruct (general_core_fit k H G C HS) as (A1 & A2 & A3 & A4 & (M1 & M2 & M3)).
+  destruct HS as (E0 & E1 & E2 & E3 & E).
+  unfold ceq, cmode. rewrite cr1_mk, cn_mk, cr2_mk. rewrite A1, A3. repeat split; auto.
+  intros a i b Ha Hi Hb. rewrite cget_mk by auto. rewrite A2.
+  destruct (divmod_idx a b (cr2 G) Hb) as [D1 D2].
+  assert (Hc : a * cr2 G + b < cr1 G * cr2 G) by nia.
+  specialize (M3 i (a * cr2 G + b)%nat). unfold mmul in M3. rewrite mr_mk, mc_mk in M3.
+  rewrite mget_mk in M3 by (auto; lia). rewrite mget_mk in M3 by (auto; lia).
+  rewrite D1, D2 in M3. rewrite <- M3 by (auto; lia).
+  apply bsum_ext; intros j Hj. unfold general_core. rewrite cget_mk; auto.
+  pose proof (lstsq_spec k H (mkmat (cn G) (cr1 G * cr2 G) (fun i c => cget K G (c / cr2 G) i (c mod cr2 G)))) as S.
+  unfold general_core in A2. rewrite cn_mk in A2. lia.
+Qed.
+(* with full column rank the fitted coefficients are the coefficients *)
+Theorem general_core_exact k H G C : in_span H G C -> full_col_rank H ->
+  ceq (general_core K lstsq k H G) C.
+Proof.
+  intros HS HF. destruct (general_core_fit k H G C HS) as (A1 & A2 & A3 & A4 & HM).
+  destruct HS as (E0 & E1 & E2 & E3 & E).
+  set (M := mkmat (cn G) (cr1 G * cr2 G) (fun i c => cget K G (c / cr2 G) i (c mod cr2 G))) in *.
+  set (Q0 := mkmat (mc H) (cr1 G * cr2 G) (fun j c => cget K C (c / cr2 G) j (c mod cr2 G))).
+  assert (HQ0 : meq K (mmul K H Q0) M).
+  { split; [unfold mmul, M; rewrite !mr_mk; auto|]. split; [unfold mmul, M, Q0; rewrite !mc_mk; auto|].
+    intros i c Hi Hc. unfold mmul in Hi, Hc. rewrite mr_mk in Hi. rewrite mc_mk in Hc. unfold Q0 in Hc. rewrite mc_mk in Hc.
+    rewrite mget_mmul by (unfold Q0; rewrite ?mc_mk; auto). unfold M. rewrite mget_mk by (auto; lia).
+    assert (Hr2 : 0 < cr2 G) by (destruct (cr2 G); lia).
+    assert (c / cr2 G < cr1 G) by (apply Nat.div_lt_upper_bound; lia).
+    assert (c mod cr2 G < cr2 G) by (apply Nat.mod_upper_bound; lia).
+    rewrite E by (auto; lia). apply bsum_ext; intros j Hj. unfold Q0. rewrite mget_mk by auto. reflexivity. }
+  assert (A2' : mr (lstsq k H M) = mc H) by (unfold general_core in A2; fold M in A2; rewrite cn_mk in A2; exact A2).
+  assert (HE : meq K (lstsq k H M) Q0).
+  { apply HF; [exact A2' | unfold Q0; apply mr_mk | unfold Q0; rewrite mc_mk; exact A4
+               | eapply meq_trans; [exact HM | apply meq_sym; exact HQ0]]. }
+  destruct HE as (_ & _ & HE).
+  unfold ceq. rewrite A1, A2, A3. repeat split; auto; try congruence.
+  intros a j b Ha Hj Hb. unfold general_core. fold M. rewrite cget_mk by (auto; lia).
+  assert (Hc : a * cr2 G + b < cr1 G * cr2 G) by nia.
+  rewrite HE by lia. unfold Q0. rewrite mget_mk by auto.
+  destruct (divmod_idx a b (cr2 G) Hb) as [D1 D2]. now rewrite D1, D2.
+Qed.
+(* TT level: data generated from a coefficient TT-tensor C through the basis matrices Hs *)
+Lemma general_from_exact : forall Y Hs Cs k, Forall2 (fun HG C => in_span (fst HG) (snd HG) C /\ full_col_rank (fst HG)) (combine Hs Y) Cs ->
+  length Hs = length Y -> Forall2 ceq (func_int_general_from K lstsq k Y Hs) Cs.
+Proof.
+  induction Y as [|G Y IH]; intros [|H Hs] Cs k HF L; cbn [length] in L; try discriminate; cbn [combine] in HF;
+    cbn [func_int_general_from].
+  - inversion HF; constructor.
+  - inversion HF as [|? C ? Cs' [HS HR] HF']; subst. cbn [fst snd] in *. constructor.
+    + now apply general_core_exact.
+    + apply IH; auto.
+Qed.
+End General.
 End FuncP.
